@@ -121,7 +121,7 @@ class C25(core.Check):
     PROPS = 'props/C25.v'
     MODEL_IMPORTS = ['gen.Gen_locks', 'model.Locks', 'model.RandomFile']
     QUICK_CASES = 500
-    THOROUGH_CASES = 3000
+    THOROUGH_CASES = 2000
     TRUSTED = ['hand model model/RandomFile.v: the host stream (seek/read/write/tell of a Python binary file object '
                'with zero fill past the end) is a MODEL of io, not verified; RandomFile.get/put/_set_record_pos/'
                'eof/lof/loc control flow, FieldFile.set_buffer, LSET/RSET into the FIELD buffer and the statement '
@@ -130,7 +130,9 @@ class C25(core.Check):
                'RandomFile and the record-number limits are regenerated from the AST (gen_locks)',
                'record numbers are integer literals; single-precision rounding of record numbers (single_round) '
                'is modelled and tied by correspondence only; one file number per file at a time (two handles on '
-               'one file are buffered separately by the host and are outside the model; C26 covers sharing)']
+               'one file are buffered separately by the host and are outside the model; C26 covers sharing)',
+               'LOF()/LOC() are single-precision numbers: modelled as the 24-bit truncation of the exact value '
+               '(exact below 2^24) - known finding fixes/K25a.json']
     RULE = ('histories of 6..30 OPEN (LEN 1..128) / FIELD+LSET/RSET (full and partial fields, short and long '
             'strings) / PUT / GET (explicit with gaps and repeats, implicit, beyond the end, invalid numbers) / '
             'LOF,LOC,EOF / CLOSE and reopen (same or different record length) over 1..3 files in a real Session '
@@ -263,13 +265,13 @@ class C25(core.Check):
 
                 def run(text):
                     del errs[:]
-                    with core.time_limit(20):
+                    with core.time_limit(60):
                         s.execute(text)
                     return errs[0] if errs else 0
 
                 def ev(text):
                     del errs[:]
-                    with core.time_limit(20):
+                    with core.time_limit(60):
                         v = s.evaluate(text)
                     return (errs[0], None) if errs else (0, v)
                 out = []
